@@ -42,6 +42,27 @@ if TYPE_CHECKING:
 
 transaction_type_key = "TransactionType"
 
+
+def _is_known_type_enum(value: object) -> bool:
+    return value in (1, 2, 3, 4, 5, 6, "pay", "keyreg", "acfg", "axfer", "afrz", "appl")
+
+
+def _is_known_on_completion(value: object) -> bool:
+    return value in (
+        0,
+        1,
+        2,
+        3,
+        4,
+        5,
+        "NoOp",
+        "OptIn",
+        "CloseOut",
+        "ClearState",
+        "UpdateApplication",
+        "DeleteApplication",
+    )
+
 base_keys = [transaction_type_key]
 universal_sets: Dict[str, List] = {}
 universal_sets[transaction_type_key] = list(ALL_TRANSACTION_TYPES)
@@ -160,22 +181,30 @@ class TxnType(DataflowTransactionContext):  # pylint: disable=too-few-public-met
                     ) - set([TealerTransactionType.ApplCreation])
 
             if is_value_matches_key(key, arg1, TypeEnum) and value_3 is not None:
+                if not _is_known_type_enum(value_3):
+                    return set(U), set(U)
                 compared_type = transaction_type_to_tealer_type(value_3)
                 true_values, false_values = set([compared_type]), set(
                     TYPEENUM_TRANSACTION_TYPES
                 ) - set([compared_type])
             elif is_value_matches_key(key, arg2, TypeEnum) and value_2 is not None:
+                if not _is_known_type_enum(value_2):
+                    return set(U), set(U)
                 compared_type = transaction_type_to_tealer_type(value_2)
                 true_values, false_values = set([compared_type]), set(
                     TYPEENUM_TRANSACTION_TYPES
                 ) - set([compared_type])
 
             if is_value_matches_key(key, arg1, OnCompletion) and value_3 is not None:
+                if not _is_known_on_completion(value_3):
+                    return set(U), set(U)
                 compared_on_completion = oncompletion_to_tealer_type(value_3)
                 true_values, false_values = set([compared_on_completion]), set(
                     APPLICATION_TRANSACTION_TYPES
                 ) - set([compared_on_completion])
             elif is_value_matches_key(key, arg2, OnCompletion) and value_2 is not None:
+                if not _is_known_on_completion(value_2):
+                    return set(U), set(U)
                 compared_on_completion = oncompletion_to_tealer_type(value_2)
                 true_values, false_values = set([compared_on_completion]), set(
                     APPLICATION_TRANSACTION_TYPES
